@@ -100,7 +100,108 @@ func mayPanicSet(p *Prog) map[*ssa.Function]bool {
 
 // nillableWire: the value is loaded from a pointer-typed field of a wire (generated) struct, or returned by a generated
 // one-of / pointer getter: it is nil whenever the field is absent from the decoded bytes.
+// decodedPointer: v is the load of a local of pointer type whose address was handed to a decoder (json.Decoder.Decode(&p),
+// json.Unmarshal(bz, &p), …): the JSON literal null leaves the pointer nil without any error.
+func decodedPointer(v ssa.Value) bool {
+	u, ok := v.(*ssa.UnOp)
+	if !ok || u.Op != token.MUL {
+		return false
+	}
+	al, ok := u.X.(*ssa.Alloc)
+	if !ok {
+		return false
+	}
+	if _, isPtr := al.Type().Underlying().(*types.Pointer).Elem().Underlying().(*types.Pointer); !isPtr {
+		return false
+	}
+	refs := al.Referrers()
+	if refs == nil {
+		return false
+	}
+	for _, rf := range *refs {
+		var holder ssa.Value = al
+		if mi, ok := rf.(*ssa.MakeInterface); ok {
+			holder = mi
+			if mr := mi.Referrers(); mr != nil {
+				for _, r2 := range *mr {
+					if c, ok := r2.(ssa.CallInstruction); ok && isDecoderCall(c) {
+						return true
+					}
+				}
+			}
+			continue
+		}
+		if c, ok := rf.(ssa.CallInstruction); ok && isDecoderCall(c) {
+			for _, a := range c.Common().Args {
+				if a == holder {
+					return true
+				}
+			}
+		}
+	}
+	return false
+}
+
+func isDecoderCall(c ssa.CallInstruction) bool {
+	n := calleeName(c.Common())
+	return strings.Contains(n, "Decode") || strings.Contains(n, "Unmarshal")
+}
+
+var nilReturnMemo = map[string]int{}
+
+// mayReturnDecodedNil: some return of the module function g hands back, as its idx-th result, a pointer that a decoder may have
+// left nil (directly or through another such function), without a dominating non-nil test.
+func mayReturnDecodedNil(p *Prog, g *ssa.Function, idx int, depth int) bool {
+	if g == nil || g.Blocks == nil || !InModule(g) || depth > 3 {
+		return false
+	}
+	key := fmt.Sprintf("%p/%d", g, idx)
+	if v := nilReturnMemo[key]; v != 0 {
+		return v == 1
+	}
+	nilReturnMemo[key] = 2
+	res := false
+	for _, ret := range returnsOf(g) {
+		if idx >= len(ret.Results) {
+			continue
+		}
+		rv := unspill(ret.Results[idx])
+		if decodedPointer(rv) {
+			res = true
+		}
+		if ex, ok := rv.(*ssa.Extract); ok {
+			if c, ok := ex.Tuple.(*ssa.Call); ok && mayReturnDecodedNil(p, resolveBoundOrNil(c.Call.StaticCallee()), ex.Index, depth+1) {
+				res = true
+			}
+		}
+		if c, ok := rv.(*ssa.Call); ok && mayReturnDecodedNil(p, resolveBoundOrNil(c.Call.StaticCallee()), 0, depth+1) {
+			res = true
+		}
+	}
+	if res {
+		nilReturnMemo[key] = 1
+	}
+	return res
+}
+
+func resolveBoundOrNil(f *ssa.Function) *ssa.Function {
+	if f == nil {
+		return nil
+	}
+	return resolveBound(f)
+}
+
 func nillableWire(p *Prog, v ssa.Value) (string, bool) {
+	if decodedPointer(v) {
+		return "pointer filled by a decoder (null leaves it nil)", true
+	}
+	if ex, ok := v.(*ssa.Extract); ok {
+		if _, isPtr := ex.Type().Underlying().(*types.Pointer); isPtr {
+			if c, ok := ex.Tuple.(*ssa.Call); ok && mayReturnDecodedNil(p, resolveBoundOrNil(c.Call.StaticCallee()), ex.Index, 0) {
+				return "result of " + FuncName(c.Call.StaticCallee()) + " (a decoded pointer: null leaves it nil)", true
+			}
+		}
+	}
 	switch x := v.(type) {
 	case *ssa.UnOp:
 		if x.Op != token.MUL {
@@ -164,6 +265,9 @@ func checkC17(p *Prog, r *Report) {
 	if modC, ok := p.ConstVal(Rel("x/burn/types"), "ModuleName"); ok {
 		checkBurnAccountBlocked(p, r, kp, modC)
 	}
+
+	// the Must* table's premise "what the codec wrote, it can read" for the module's custom protobuf type (customproto.go)
+	checkCustomProtoDelegation(p, r, "C17")
 
 	entries, kinds := c17Entries(p)
 	r.Floor("entry-points", len(entries), 14*3+14+12+3+8)
